@@ -60,6 +60,13 @@ func (a *AspectEliminationHeuristic) MethodParameters() interface{} {
 func (a *AspectEliminationHeuristic) ParseParams(dm *model.DecisionMaker) interface{} {
 	var params AspectEliminationHeuristicParams
 	utils.DecodeToStruct(dm.MethodParameters, &params)
+	// every declared criterion needs its weight, whether or not a bias later removes the criterion
+	dm.Criteria.ZipWithWeights(&params.Weights)
+	// and so do the thresholds / series parameters (checked on a throw-away instance, Evaluate builds its own)
+	satisfaction_levels.Find(params.Function, params.Params, a.functions).Initialize(&model.DecisionMakingParams{
+		Criteria:                  dm.Criteria,
+		NotConsideredAlternatives: dm.KnownAlternatives,
+	})
 	return params
 }
 
